@@ -648,12 +648,12 @@ def main():
         else:
             chk.record(Result(_Ob, "unsat", a["solver_s"], info, twin="sat"))
     # stage 2
-    if not only or only.startswith("frame"):
+    if not only or (only.startswith("frame") and only != "frame-aggregated"):
         frame_obligations(chk, 2, {"k0": [1, 3], "k1": [2]})
         frame_obligations(chk, 1, {"kz": [90]})
         if chk.tier == "thorough":
             frame_obligations(chk, 3, {"a": [1], "b": [1, 2, 90]})
-    if not only:
+    if not only or only in ("frame-aggregated", "roundtrip"):
         companions(chk)
     chk.extra["path_exploration"] = path_stats
     chk.functions += ["liesel.goose.engine.SamplingResults.get_error_log / get_posterior_samples / get_kernels_by_pos_key", "liesel.goose.summary_m._make_error_summary",
